@@ -106,7 +106,10 @@ def cases(tier, seed):
                     "nlayers": 1 + (i // 5) % 4, "seed": [seed, "lay", i], "xregime": xr,
                     # at the Rayleigh end the layered recursion loses relative accuracy (known finding F64): what the cross-section
                     # contract would say there is reported by this check's own oracle under the regime's mechanism name
-                    "allow_events": ["contract.calc_cross_sections.cabs_negative", "contract.calc_cross_sections.energy"] if xr == "small" else []})
+                    # (likewise for the regime of F197 -- two nested layers far below the wavelength -- where the result is not a number:
+                    # the check's own oracle reports that under the regime's mechanism name)
+                    "allow_events": ["contract.calc_cross_sections.cabs_negative", "contract.calc_cross_sections.energy"] if xr == "small" else
+                                    (["contract.calc_*.nonfinite", "contract.calc_cross_sections.cabs_negative", "contract.calc_cross_sections.energy"] if xr == "tinycore" else [])})
     return out
 
 
@@ -386,7 +389,10 @@ def _run_layered(case):
     resid["layered_coeffs"] = fnum(float(np.abs(coa[:, :nc] - cob[:, :nc]).max()))
     longer = coa if coa.shape[1] > nc else cob
     tail = float(np.abs(longer[:, nc:]).max()) if longer.shape[1] > nc else 0.0
-    return {"resid": resid, "flags": flags, "cond": 0.0, "x": float(xs[-1]), "tail": fnum(tail), "orders": [int(coa.shape[1]), int(cob.shape[1])]}
+    # size parameters of the layers of the finer of the two spheres (regime of F197: at least two of them below 1e-5)
+    xa = sorted(float(v) * k for v in np.atleast_1d(a.r))
+    return {"resid": resid, "flags": flags, "cond": 0.0, "x": float(xs[-1]), "tail": fnum(tail), "orders": [int(coa.shape[1]), int(cob.shape[1])],
+            "x_second_smallest": xa[1] if len(xa) > 1 else xa[0], "nonfinite": bool(not np.all(np.isfinite(fa.values)))}
 
 
 # ------------------------------------------------------------------ oracle
@@ -428,10 +434,14 @@ def judge(case, obs):
                 regime = ".default_truncation_misses_resonance"
             if case["kind"] == "layered" and obs.get("x", 1.0) < 0.1:
                 regime = ".size_parameter_below_0.1"
+            if case["kind"] == "layered" and obs.get("nonfinite") and obs.get("x_second_smallest", 1.0) < 1e-5:
+                regime = ".two_nested_layers_below_x_1e-5_not_a_number"
             out.append({"mech": "%s.%s%s" % (case["kind"], k, regime), "detail": "%s=%.3e > %.1e (reference conditioning %.1e); %s" % (k, v, t, obs["cond"], desc)})
     for k, v in obs["flags"].items():
         if not v:
             regime = ".size_parameter_below_0.1" if case["kind"] == "layered" and obs.get("x", 1.0) < 0.1 else ""
+            if case["kind"] == "layered" and obs.get("nonfinite") and obs.get("x_second_smallest", 1.0) < 1e-5:
+                regime = ".two_nested_layers_below_x_1e-5_not_a_number"
             out.append({"mech": "%s.%s%s" % (case["kind"], k, regime), "detail": "%s" % desc})
     return out
 
